@@ -4,7 +4,7 @@ Generated: problem x configuration (all step solvers x controllers x Newton type
 scaling none/custom).  A fault-free reference run counts the K callback evaluations (per
 component) and the L factorisations / linear solves of the run.  Then, *inside the case*, faults
 are injected one per run at enumerated positions: quick tier a generated subset of positions per
-component, thorough tier every position of small runs (K, L <= 400).  Fault kinds: nan / +inf /
+component, thorough tier every position of every component with at most 150 positions.  Fault kinds: nan / +inf /
 -inf in the objective, one gradient entry, one constraint, one Jacobian / Hessian datum;
 LinearSolverError at the k-th factorisation or the k-th solve; region-persistent evaluation
 failure (every evaluation further than R from the start fails, forever).
@@ -35,7 +35,7 @@ from vf.trace import make_tracing_solver, run_solve
 
 ID = "C07"
 LEVEL = "fault_enumeration"
-BUDGET = {"quick": 6, "thorough": 120}
+BUDGET = {"quick": 6, "thorough": 40}
 CASE_TIMEOUT = 900
 RULE = (
     "case = (spec, start, params, scaling, position fractions, fault values, region); inside each "
@@ -61,7 +61,7 @@ def strategy(tier):
                 max_n=4,
                 max_m=2,
                 scalings=("none", "none", "custom"),
-                iteration_limit=draw(st.sampled_from([12, 30])) if tier == "quick" else 60,
+                iteration_limit=draw(st.sampled_from([12, 30])) if tier == "quick" else 40,
                 # Globalized Newton is left out: its line-search failure is a deliberate error of its own
                 # (C06) that a perturbed trajectory may run into; C07 quantifies over step solvers and
                 # controllers, not Newton variants
@@ -157,7 +157,7 @@ def check(case):
     def positions(name, count):
         if count <= 0:
             return []
-        if case.get("exhaustive") and count <= 400:
+        if case.get("exhaustive") and count <= 150:
             return list(range(count))
         pos = {min(count - 1, (f * count) // 1000) for f in case["fracs"][name]}
         pos.update(range(min(count, case.get("early", 0) + 1)))
